@@ -208,6 +208,24 @@ impl GRLParser {
     pub fn verif_parse_when_clause(text: &str) -> Result<ConditionGroup> {
         GRLParser.parse_when_clause(text)
     }
+
+    /// Verification hook: the action-list parser applied to a bare then clause.
+    pub fn verif_parse_then_clause(text: &str) -> Result<Vec<ActionType>> {
+        GRLParser.parse_then_clause(text)
+    }
+
+    /// Verification hook: the argument splitter.
+    pub fn verif_split_arguments(text: &str) -> Vec<String> {
+        Self::split_arguments(text)
+            .into_iter()
+            .map(|s| s.to_string())
+            .collect()
+    }
+
+    /// Verification hook: the quote-aware substring search.
+    pub fn verif_find_outside_strings(text: &str, pattern: &str) -> Option<usize> {
+        Self::find_outside_strings(text, pattern)
+    }
 }
 
 impl GRLParser {
